@@ -39,9 +39,11 @@ Definition pk_fail : N := 3.      (* []         {{ 1|verifboom }}  a filter that
 Definition pk_include : N := 4.   (* [t; ign]   {% include 't<t>' [ignore missing] %}          IncludeNode *)
 Definition pk_block : N := 5.     (* [b]        {% block b<b> %} children {% endblock %}       BlockNode *)
 Definition pk_extends : N := 6.   (* [t]        {% extends 't<t>' %}                           ExtendsNode *)
-Definition pk_macro : N := 7.     (* [m]        {% macro m<m>(v0) %} children {% endmacro %}   MacroNode *)
+Definition pk_macro : N := 7.     (* [m; d; x]  {% macro m<m>(v0) %} children {% endmacro %}, or with d <> 0
+                                                {% macro m<m>(v0, v4 = v<x>) %}: a default that is an expression over the caller's variables   MacroNode *)
 Definition pk_call : N := 8.      (* [t; m; x]  {% import 't<t>' as q %}{{ q.m<m>(v<x>) }}     ImportNode + PrintNode(FunctionNode) *)
 Definition pk_if : N := 9.        (* [x]        {% if v<x> %} children {% endif %}             IfNode *)
+Definition pk_lcall : N := 10.    (* [m; x]     {{ m<m>(v<x>) }}: a macro of the template itself         PrintNode(FunctionNode) *)
 
 Record pool_src := mk_psrc { psrc_nodes : list pool_tree; psrc_ok : bool }.
 Definition pool_tree_of_src (src : pool_src) : pool_tree := PoolT pk_root [] (psrc_nodes src).
@@ -429,14 +431,25 @@ Fixpoint pool_find_extends (ns : list pool_tree) : option N :=
                          end
   end.
 
-Fixpoint pool_find_macro (ns : list pool_tree) (m : N) : option (list pool_tree) :=
+(* the macro node of a name among the top-level nodes of a template: payload and body *)
+Fixpoint pool_find_macro (ns : list pool_tree) (m : N) : option (list N * list pool_tree) :=
   match ns with
   | [] => None
   | PoolT k pl cs :: r => match pool_find_macro r m with
                           | Some b => Some b                      (* a later definition overwrites ctx.macros[name] *)
-                          | None => if N.eqb k pk_macro && N.eqb (pool_pl pl 0) m then Some cs else None
+                          | None => if N.eqb k pk_macro && N.eqb (pool_pl pl 0) m then Some (pl, cs) else None
                           end
   end.
+
+(* MacroNode.CallMacro (node.go:1171): a new context whose parent is the caller; the first parameter is bound
+   to the argument; the second parameter, when the macro declares one, is not passed by any generated call and is
+   bound to its default expression evaluated in the CALLER's context, on every call anew *)
+Definition pool_macro_ctx (g0 : pool_garbage) (c : pool_ctx) (mpl : list N) (arg : option N) : pool_ctx :=
+  pool_cset (pool_cset (pool_cset
+    (pool_ctx_new g0 ((0%N, arg) :: (if N.eqb (pool_pl mpl 1) 0 then [] else [(4%N, pool_getvar c (pool_pl mpl 2))])))
+    b#"parent" (FVParent (pool_vars_of (pool_cget c b#"context") :: pool_chain_of (pool_cget c b#"parent"))))
+    b#"lastLoadedTemplate" (pool_fv_or_nil (pool_cget c b#"lastLoadedTemplate")))
+    b#"sandboxed" (pool_fv_or_nil (pool_cget c b#"sandboxed")).
 
 Definition pool_truthy (v : option N) : bool := match v with Some n => negb (N.eqb n 0) | None => false end.
 
@@ -444,9 +457,11 @@ Definition pool_truthy (v : option N) : bool := match v with Some n => negb (N.e
    (RootNode.Render, node.go:1492); root = false: ns is a list of nodes rendered one after the other.
    g d supplies the left-over values of a context acquired at fuel level d. fuel bounds the nesting,
    gas the number of nodes visited (so that the machine stays cheap to run in states where a released
-   and reused root has made the template map cyclic); the remaining gas is returned. *)
+   and reused root has made the template map cyclic); the remaining gas is returned. cur is the list of
+   top-level nodes of the template the nodes belong to (its macros are what a local macro call sees; with
+   root = true it is ns itself). *)
 Fixpoint pool_eval (fuel : nat) (rv : N -> pool_lres) (g : nat -> pool_garbage) (root : bool)
-                   (c : pool_ctx) (ns : list pool_tree) (gas : nat) : pool_ev * nat :=
+                   (c : pool_ctx) (cur ns : list pool_tree) (gas : nat) : pool_ev * nat :=
   match fuel with
   | O => ((PRFuel, []), gas)
   | S f =>
@@ -462,20 +477,22 @@ Fixpoint pool_eval (fuel : nat) (rv : N -> pool_lres) (g : nat -> pool_garbage) 
         match pool_find_extends ns with
         | Some t =>
           (* ExtendsNode.Render, node.go:663 *)
-          if negb (pool_touch c1 [b#"engine"; b#"env"; b#"context"; b#"sandboxed"; b#"parentBlocks"; b#"blocks"]) then ((PRGarbage, []), gas0)
+          if negb (pool_touch c1 [b#"engine"; b#"env"; b#"context"; b#"sandboxed"; b#"parent"; b#"parentBlocks"; b#"blocks"]) then ((PRGarbage, []), gas0)
           else
             match rv t with
             | PLErr e => ((PRErr e, [t]), gas0)
             | PLBad => ((PRGarbage, [t]), gas0)
             | PLOk pns =>
               let pc := pool_ctx_new (g f) (pool_vars_of (pool_cget c1 b#"context")) in
-              let pc := pool_cset (pool_cset (pool_cset (pool_cset pc b#"extending" FVTrue)
+              (* parentCtx.parent = ctx.parent (node.go:735): what an including template could see stays visible *)
+              let pc := pool_cset (pool_cset (pool_cset (pool_cset (pool_cset pc b#"extending" FVTrue)
                           b#"sandboxed" (pool_fv_or_nil (pool_cget c1 b#"sandboxed")))
+                          b#"parent" (pool_fv_or_nil (pool_cget c1 b#"parent")))
                           b#"lastLoadedTemplate" FVPtr) b#"blockChain" (FVChain d) in
-              let '(r, gas1) := pool_eval f rv g true pc pns gas0 in
+              let '(r, gas1) := pool_eval f rv g true pc pns pns gas0 in
               (pool_seq (PROut [], [t]) r, gas1)
             end
-        | None => pool_eval f rv g false c1 ns gas0
+        | None => pool_eval f rv g false c1 ns ns gas0
         end
     else
       match ns with
@@ -503,14 +520,14 @@ Fixpoint pool_eval (fuel : nat) (rv : N -> pool_lres) (g : nat -> pool_garbage) 
               | PLOk ins =>
                 if negb (pool_touch c [b#"sandboxed"; b#"lastLoadedTemplate"; b#"blocks"; b#"macros"]) then ((PRGarbage, [pool_pl pl 0]), gas0)
                 else
-                  let '(r, gas2) := pool_eval f rv g true (pool_cset (pool_ctx_clone (g f) c) b#"lastLoadedTemplate" FVPtr) ins gas0 in
+                  let '(r, gas2) := pool_eval f rv g true (pool_cset (pool_ctx_clone (g f) c) b#"lastLoadedTemplate" FVPtr) ins ins gas0 in
                   (pool_seq (PROut [], [pool_pl pl 0]) r, gas2)
               end
           else if N.eqb k pk_block then
             (* BlockNode.Render, node.go:611: the most derived definition of the name *)
             if negb (pool_touch c [b#"blockChain"; b#"currentBlock"; b#"currentDefs"; b#"blockDepth"]) then ((PRGarbage, []), gas0)
             else
-              pool_eval f rv g false c
+              pool_eval f rv g false c cur
                 (match pool_defs_lookup (pool_defs_of (pool_cget c b#"blockChain")) (pool_pl pl 0) with
                  | Some (first :: _) => first
                  | _ => cs
@@ -526,20 +543,16 @@ Fixpoint pool_eval (fuel : nat) (rv : N -> pool_lres) (g : nat -> pool_garbage) 
               | PLErr e => ((PRErr e, [pool_pl pl 0]), gas0)
               | PLBad => ((PRGarbage, [pool_pl pl 0]), gas0)
               | PLOk mns =>
-                match pool_eval f rv g true (pool_cset (pool_ctx_new (g f) []) b#"lastLoadedTemplate" FVPtr) mns gas0 with
+                match pool_eval f rv g true (pool_cset (pool_ctx_new (g f) []) b#"lastLoadedTemplate" FVPtr) mns mns gas0 with
                 | ((PROut _, l1), gas2) =>                                  (* rendered to io.Discard *)
                   match pool_find_macro mns (pool_pl pl 1) with
                   | None => ((PRErr EOther, pool_pl pl 0 :: l1), gas2)       (* function not found *)
-                  | Some body =>
+                  | Some (mpl, body) =>
                     if negb (pool_touch c [b#"lastLoadedTemplate"]) then ((PRGarbage, pool_pl pl 0 :: l1), gas2)
                     else
+                      (* the macros of the defining template are what the body sees (MacroNode.siblings) *)
                       let '(r, gas3) :=
-                        pool_eval f rv g false
-                          (pool_cset (pool_cset (pool_cset (pool_ctx_new (g f) [(0%N, pool_getvar c (pool_pl pl 2))])
-                             b#"parent" (FVParent (pool_vars_of (pool_cget c b#"context") :: pool_chain_of (pool_cget c b#"parent"))))
-                             b#"lastLoadedTemplate" (pool_fv_or_nil (pool_cget c b#"lastLoadedTemplate")))
-                             b#"sandboxed" (pool_fv_or_nil (pool_cget c b#"sandboxed")))
-                          body gas2 in
+                        pool_eval f rv g false (pool_macro_ctx (g f) c mpl (pool_getvar c (pool_pl pl 2))) mns body gas2 in
                       (pool_seq (PROut [], pool_pl pl 0 :: l1) r, gas3)
                   end
                 | ((r, l1), gas2) => ((r, pool_pl pl 0 :: l1), gas2)
@@ -547,11 +560,21 @@ Fixpoint pool_eval (fuel : nat) (rv : N -> pool_lres) (g : nat -> pool_garbage) 
               end
           else if N.eqb k pk_if then
             if negb (pool_touch c [b#"context"; b#"env"; b#"parent"]) then ((PRGarbage, []), gas0)
-            else if pool_truthy (pool_getvar c (pool_pl pl 0)) then pool_eval f rv g false c cs gas0 else ((PROut [], []), gas0)
+            else if pool_truthy (pool_getvar c (pool_pl pl 0)) then pool_eval f rv g false c cur cs gas0 else ((PROut [], []), gas0)
+          else if N.eqb k pk_lcall then
+            (* FunctionNode without module: GetMacro in the context (render.go, the macro call branch), then CallMacro;
+               an unknown name ends in CallFunction: function not found *)
+            if negb (pool_touch c [b#"context"; b#"env"; b#"parent"; b#"sandboxed"; b#"macros"; b#"lastLoadedTemplate"]) then ((PRGarbage, []), gas0)
+            else
+              match pool_find_macro cur (pool_pl pl 0) with
+              | None => ((PRErr EOther, []), gas0)
+              | Some (mpl, body) =>
+                pool_eval f rv g false (pool_macro_ctx (g f) c mpl (pool_getvar c (pool_pl pl 1))) cur body gas0
+              end
           else ((PROut [], []), gas0)                                       (* extends below the top level, unknown kinds: nothing *)
         in
         match this with
-        | (PROut _, _) => let '(r, gas4) := pool_eval f rv g false c rest gas1 in (pool_seq this r, gas4)
+        | (PROut _, _) => let '(r, gas4) := pool_eval f rv g false c cur rest gas1 in (pool_seq this r, gas4)
         | _ => (this, gas1)
         end
       end
@@ -568,7 +591,7 @@ Definition pool_render (st : pool_store) (g : nat -> pool_garbage) (s : pool_sta
   | PLBad => (PRGarbage, [n])
   | PLOk ns =>
     let c := pool_cset (pool_ctx_new (g pool_eval_fuel) (map (fun xv => (fst xv, Some (snd xv))) vars)) b#"lastLoadedTemplate" FVPtr in
-    pool_seq (PROut [], [n]) (fst (pool_eval pool_eval_fuel (pool_resolve st s e) g true c ns pool_eval_gas))
+    pool_seq (PROut [], [n]) (fst (pool_eval pool_eval_fuel (pool_resolve st s e) g true c ns ns pool_eval_gas))
   end.
 
 (* ------------------------------------------------------------------ operations *)
